@@ -13,9 +13,13 @@
             | maxLength n | minLength n | pattern p<id> | maxProps n | minProps n
             | maxItems n | minItems n | unique t/f | maxContains n | minContains n
             | required [ string* ]
-            | ref S | allOf [ S* ] | anyOf [ S* ] | oneOf [ S* ] | not S | if S | then S | else S
+            | ref S (inline target) | ref @<i> (entry i of the defs table) | allOf [ S* ] | anyOf [ S* ] | oneOf [ S* ] | not S | if S | then S | else S
             | props { (string S)* } | pprops { (p<id> S)* } | pnames S | prefix [ S* ]
             | contains S | addl S | items S
+            after the root schema optionally:  defs [ S* ]   (the table of named definitions; a line
+            uses either inline or named references).  The schema is parsed into Refs.rschema, checked
+            with doc_ok and inlined by the extracted resolve_doc; valid_r (following references) is
+            cross-checked against valid of the inlined schema on every instance.
    Table:   p<id>:<string>:<0|1> ...
    Tags:    F forward case, O the same schema written with permuted keys, R schema generated back,
             T test-suite case
@@ -64,12 +68,16 @@ let p_ty s = match next s with
   | "null" -> TyNull | "boolean" -> TyBoolean | "integer" -> TyInteger | "number" -> TyNumber
   | "string" -> TyString | "array" -> TyArray | "object" -> TyObject | t -> failwith ("bad type " ^ t)
 
+let rec nat_of_int i = if i <= 0 then O else S (nat_of_int (i - 1))
+let inline_defs : (int, rschema) Hashtbl.t = Hashtbl.create 16
+let inline_count = ref 0
+
 let rec p_schema s =
   match next s with
-  | "T" -> SBool true
-  | "F" -> SBool false
+  | "T" -> RBool true
+  | "F" -> RBool false
   | "(" ->
-    let a = ref no_assertions and p = ref (no_applic : schema applic) in
+    let a = ref no_assertions and rf = ref None and p = ref (no_applic : rschema applic) in
     let rec loop () =
       match next s with
       | ")" -> ()
@@ -94,7 +102,18 @@ let rec p_schema s =
          | "maxContains" -> let n = p_nat s in a := { !a with a_maxContains = Some n }
          | "minContains" -> let n = p_nat s in a := { !a with a_minContains = Some n }
          | "required" -> expect s "["; let l = many s "]" (fun s -> str_of_tok (next s)) in a := { !a with a_required = Some l }
-         | "ref" -> let x = p_schema s in p := { !p with ap_ref = Some x }
+         | "ref" ->
+           let t = peek s in
+           if String.length t > 1 && t.[0] = '@' then begin
+             ignore (next s);
+             rf := Some (nat_of_int (int_of_string (String.sub t 1 (String.length t - 1))))
+           end else begin
+             let idx = !inline_count in
+             incr inline_count;
+             let x = p_schema s in
+             Hashtbl.replace inline_defs idx x;
+             rf := Some (nat_of_int idx)
+           end
          | "allOf" -> expect s "["; let l = many s "]" p_schema in p := { !p with ap_allOf = Some l }
          | "anyOf" -> expect s "["; let l = many s "]" p_schema in p := { !p with ap_anyOf = Some l }
          | "oneOf" -> expect s "["; let l = many s "]" p_schema in p := { !p with ap_oneOf = Some l }
@@ -117,7 +136,7 @@ let rec p_schema s =
         loop ()
     in
     loop ();
-    SObj (!a, !p)
+    RObj (!a, !rf, !p)
   | t -> failwith ("bad schema token " ^ t)
 
 let words s = List.filter (fun w -> w <> "") (String.split_on_char ' ' s)
@@ -141,13 +160,25 @@ let handle line =
   | [sf; tf; inf] ->
     let st = { toks = words sf } in
     let tag = next st in
-    let sch = p_schema st in
+    Hashtbl.reset inline_defs; inline_count := 0;
+    let rsch = p_schema st in
+    let named = match st.toks with
+      | "defs" :: _ -> ignore (next st); expect st "["; Some (many st "]" p_schema)
+      | [] -> None
+      | t :: _ -> failwith ("trailing token " ^ t) in
+    let defs = match named with
+      | Some l -> if !inline_count > 0 then failwith "inline and named references mixed" else l
+      | None -> List.init !inline_count (fun i -> Hashtbl.find inline_defs i) in
     let tbl = p_table tf in
     let insts = List.filter_map (fun part ->
         match words part with
         | [] -> None
         | ws -> Some (p_json { toks = ws })) (String.split_on_char ';' inf) in
     let fwd = (tag = "F" || tag = "O") in
+    if not (c13_doc_ok defs rsch) then (if fwd then "U" else failwith "references do not resolve")
+    else
+    let sch = c13_resolve_doc defs rsch in
+    List.iter (fun j -> if c13_valid_r tbl defs rsch j <> c13_valid tbl sch j then failwith "valid_r differs from valid of the inlined schema") insts;
     if fwd && c13_unsupported tbl sch then "U"
     else begin
       let b x = if x then "1" else "0" in
